@@ -937,6 +937,17 @@ class Evaluator:
             e1 = self.block(env.copy(), s.body)
             e2 = self.block(env.copy(), s.orelse)
             return self.merge(c, e1, e2)
+        if isinstance(s, ast.For) and isinstance(
+                s.iter, (ast.Tuple, ast.List)) and isinstance(
+                s.target, ast.Name) and not s.orelse and len(
+                s.iter.elts) <= 8 and not any(
+                isinstance(x, (ast.Break, ast.Continue, ast.Return))
+                for b in s.body for x in ast.walk(b)):
+            # a loop over a short literal list: one pass per entry
+            for e_ in s.iter.elts:
+                self.assign(env, s.target, self.expr(env, e_))
+                env = self.block(env, s.body)
+            return env
         if isinstance(s, (ast.For, ast.While)):
             saved_vars, saved_stores = dict(env.vars), dict(env.stores)
             try:
